@@ -394,9 +394,9 @@ package rockredis
 //@ func buildMatchRegexp(match string) (glob.Glob, error)
 //@   trusted compiles the MATCH pattern (third-party glob library)
 //@ interface (github.com/gobwas/glob.Glob).Match func(g glob.Glob, s string) bool
-//@ func (db *RockDB) GetCollVersionKey(ts int64, dt byte, key []byte, useLock bool) (collVerKeyInfo, error)
-//@   trusted reads the collection meta from the store
-//@   ensures result1 == nil ==> result0.OldHeader != nil
+//@ func (info collVerKeyInfo) MetaData() []byte
+//@   requires info.OldHeader != nil
+//@   ensures sameSlice(result, info.OldHeader.UserData)
 //@ func (info collVerKeyInfo) IsNotExistOrExpired() bool
 //@   requires info.OldHeader != nil
 //@   ensures result <==> (info.Expired || info.OldHeader.UserData == nil)
@@ -654,3 +654,69 @@ package rockredis
 //@   loop 1
 //@   invariant 0 <= i && i <= len(args) && num == ghost(misses, db) - old(ghost(misses, db)) && num >= 0 && num <= i && err == nil && (value == nil || (fresh(value) && disjoint(value, keyInfo.OldHeader.UserData)))
 //@   invariant (len(keyInfo.OldHeader.UserData) == 0 || len(keyInfo.OldHeader.UserData) == 8) && storedSize(keyInfo.OldHeader.UserData) >= 0 && storedSize(keyInfo.OldHeader.UserData) < 4611686018427387904
+
+//@ func (db *RockDB) prepareCollKeyForWrite(ts int64, dt byte, key []byte, field []byte) (collVerKeyInfo, error)
+//@   trusted reads the collection meta through the engine; an expired or absent collection starts a new generation with no meta
+//@   ensures result1 == nil ==> result0.OldHeader != nil && (result0.OldHeader.Ver == 0 || result0.OldHeader.Ver == 1) && smallTK(result0.Table, result0.VerKey)
+//@   ensures result1 == nil && dt == SetType ==> (len(result0.OldHeader.UserData) == 0 || len(result0.OldHeader.UserData) >= 8) && setSize(result0.OldHeader.UserData) >= 0 && setSize(result0.OldHeader.UserData) < 4611686018427387904
+//@   ensures result1 != errTooMuchBatchSize
+//@ func (db *RockDB) GetCollVersionKey(ts int64, dt byte, key []byte, useLock bool) (collVerKeyInfo, error)
+//@   trusted reads the collection meta from the store
+//@   ensures result1 == nil ==> result0.OldHeader != nil && (result0.OldHeader.Ver == 0 || result0.OldHeader.Ver == 1) && smallTK(result0.Table, result0.VerKey)
+//@   ensures result1 == nil && dt == SetType ==> (len(result0.OldHeader.UserData) == 0 || len(result0.OldHeader.UserData) >= 8) && setSize(result0.OldHeader.UserData) >= 0 && setSize(result0.OldHeader.UserData) < 4611686018427387904
+//@   ensures result1 == nil && dt == HashType ==> (len(result0.OldHeader.UserData) == 0 || len(result0.OldHeader.UserData) == 8) && storedSize(result0.OldHeader.UserData) >= 0 && storedSize(result0.OldHeader.UserData) < 4611686018427387904
+//@   ensures result1 != errTooMuchBatchSize
+
+// set meta: [size be64][modify time be64]
+//@ spec setSize(b []byte) int = ite(len(b) == 0, 0, toI64(be64(b, 0)))
+//@ func (db *RockDB) sIncrSize(ts int64, key []byte, oldh *headerMetaValue, delta int64, wb engine.WriteBatch) (int64, error)
+//@   requires db != nil && oldh != nil && (oldh.Ver == 0 || oldh.Ver == 1) && delta > -4611686018427387904 && delta < 4611686018427387904
+//@   requires len(oldh.UserData) >= 8 ==> setSize(oldh.UserData) > -4611686018427387904 && setSize(oldh.UserData) < 4611686018427387904
+//@   ensures result1 == nil <==> (len(old(oldh.UserData)) == 0 || len(old(oldh.UserData)) >= 8)
+//@   ensures result1 != errTooMuchBatchSize
+//@   ensures result1 == nil ==> result0 == max(old(setSize(oldh.UserData)) + delta, 0)
+//@   ensures result1 == nil && result0 == 0 ==> ghost(wbdels, wb) == old(ghost(wbdels, wb)) + 1 && ghost(wbputs, wb) == old(ghost(wbputs, wb))
+//@   ensures result1 == nil && result0 > 0 ==> ghost(wbputs, wb) == old(ghost(wbputs, wb)) + 1 && ghost(wbdels, wb) == old(ghost(wbdels, wb))
+//@   ensures result1 != nil ==> ghost(wbputs, wb) == old(ghost(wbputs, wb)) && ghost(wbdels, wb) == old(ghost(wbdels, wb))
+//@   ghostset ghost(sizedelta, db) := delta
+//@   ghostset ghost(newsize, db) := result0
+//@   modifies oldh.UserData, ghost(wbputs, wb), ghost(wbdels, wb), ghost(sizedelta, db), ghost(newsize, db)
+
+// SADD: the reply and the size delta are the number of members the store did not have, each buffered once;
+// the batch is cleared on every path
+//@ func (db *RockDB) SAdd(ts int64, key []byte, args ...[]byte) (int64, error)
+//@   requires db != nil && db.wb != nil && ghost(wbputs, db.wb) == 0 && ghost(wbdels, db.wb) == 0
+//@   ensures result1 == nil ==> result0 == ghost(misses, db) - old(ghost(misses, db)) && ghost(sizedelta, db) == result0
+//@   ensures result1 == nil && result0 > 0 ==> ghost(cputs, db.rockEng) >= result0 + 1 && ghost(newsize, db) >= result0
+//@   ensures result1 == nil ==> ghost(commits, db.rockEng) == old(ghost(commits, db.rockEng)) + 1
+//@   ensures len(args) > MAX_BATCH_NUM ==> result1 == errTooMuchBatchSize && ghost(commits, db.rockEng) == old(ghost(commits, db.rockEng))
+//@   ensures ghost(wbputs, db.wb) == 0 && ghost(wbdels, db.wb) == 0
+//@   modifies ghost(wbputs, _), ghost(wbdels, _), ghost(commits, _), ghost(cputs, _), ghost(cdels, _), ghost(misses, db), ghost(hits, db), ghost(sizedelta, db), ghost(newsize, db), ghost(tblcnt, db), alloftype(headerMetaValue)
+//@   loop 1
+//@   invariant 0 <= i && i <= len(args) && num == ghost(misses, db) - old(ghost(misses, db)) && num >= 0 && num <= i && ghost(wbputs, wb) == num && ghost(wbdels, wb) == 0
+//@   invariant (len(oldh.UserData) == 0 || len(oldh.UserData) >= 8) && setSize(oldh.UserData) >= 0 && setSize(oldh.UserData) < 4611686018427387904
+
+// SREM: the reply and the size decrease are the number of members found in the store, each deleted once
+//@ func (db *RockDB) SRem(ts int64, key []byte, args ...[]byte) (int64, error)
+//@   requires db != nil && db.wb != nil && ghost(wbputs, db.wb) == 0 && ghost(wbdels, db.wb) == 0
+//@   ensures result1 == nil && len(args) > 0 ==> result0 == ghost(hits, db) - old(ghost(hits, db)) && ghost(sizedelta, db) == -result0
+//@   ensures result1 == nil && len(args) > 0 ==> ghost(commits, db.rockEng) == old(ghost(commits, db.rockEng)) + 1 && ghost(cdels, db.rockEng) >= result0
+//@   ensures len(args) == 0 ==> result0 == 0 && result1 == nil && ghost(commits, db.rockEng) == old(ghost(commits, db.rockEng))
+//@   ensures len(args) > MAX_BATCH_NUM ==> result1 == errTooMuchBatchSize && ghost(commits, db.rockEng) == old(ghost(commits, db.rockEng))
+//@   ensures ghost(wbputs, db.wb) == 0 && ghost(wbdels, db.wb) == 0
+//@   modifies ghost(wbputs, _), ghost(wbdels, _), ghost(commits, _), ghost(cputs, _), ghost(cdels, _), ghost(misses, db), ghost(hits, db), ghost(sizedelta, db), ghost(newsize, db), ghost(tblcnt, db), ghost(expdels, _), alloftype(headerMetaValue)
+//@   loop 1
+//@   invariant 0 <= i && i <= len(args) && num == ghost(hits, db) - old(ghost(hits, db)) && num >= 0 && num <= i && ghost(wbdels, wb) == num && ghost(wbputs, wb) == 0
+//@   invariant (len(oldh.UserData) == 0 || len(oldh.UserData) >= 8) && setSize(oldh.UserData) >= 0 && setSize(oldh.UserData) < 4611686018427387904
+
+// HDEL: the reply and the size decrease are the number of fields found in the store
+//@ func (db *RockDB) HDel(ts int64, key []byte, args ...[]byte) (int64, error)
+//@   requires db != nil && db.wb != nil && db.indexMgr != nil
+//@   ensures result1 == nil && len(args) > 0 ==> result0 == ghost(hits, db) - old(ghost(hits, db)) && ghost(sizedelta, db) == -result0
+//@   ensures len(args) == 0 ==> result0 == 0 && result1 == nil
+//@   ensures result1 == errTooMuchBatchSize || len(args) == 0 ==> ghost(wbputs, db.wb) == old(ghost(wbputs, db.wb)) && ghost(wbdels, db.wb) == old(ghost(wbdels, db.wb)) && ghost(commits, db.rockEng) == old(ghost(commits, db.rockEng))
+//@   ensures len(args) > MAX_BATCH_NUM ==> result1 == errTooMuchBatchSize
+//@   modifies ghost(wbputs, _), ghost(wbdels, _), ghost(commits, _), ghost(cputs, _), ghost(cdels, _), ghost(misses, db), ghost(hits, db), ghost(sizedelta, db), ghost(newsize, db), ghost(tblcnt, db), ghost(expdels, _), alloftype(headerMetaValue)
+//@   loop 1
+//@   invariant 0 <= i && i <= len(args) && num == ghost(hits, db) - old(ghost(hits, db)) && num >= 0 && num <= i
+//@   invariant (len(oldh.UserData) == 0 || len(oldh.UserData) == 8) && storedSize(oldh.UserData) >= 0 && storedSize(oldh.UserData) < 4611686018427387904
